@@ -190,7 +190,7 @@ def env_at(node: ast.AST, func: ast.AST, keep_params: bool = True, loop_elems: b
             block = getattr(p, field, None)
             if isinstance(block, list) and any(child is s for s in block):
                 idx = [i for i, s in enumerate(block) if s is child][0]
-                chain.append(block[:idx])
+                chain.append((block[:idx], p if field == "body" else None))
                 break
         child, p = p, getattr(p, "_parent", None)
     params = set()
@@ -218,7 +218,11 @@ def env_at(node: ast.AST, func: ast.AST, keep_params: bool = True, loop_elems: b
             for k, t in enumerate(lp.target.elts):
                 if isinstance(t, ast.Name):
                     loop_bind[t.id] = ("elem", it, k)
-    for stmts in reversed(chain):
+    for stmts, owner in reversed(chain):
+        if isinstance(owner, (ast.For, ast.While)):
+            # entering a loop body: what the loop assigns anywhere is carried around the loop, not known here
+            for nm in _assigned_names(owner):
+                env.pop(nm, None)
         for s in stmts:
             if isinstance(s, (ast.If, ast.For, ast.While, ast.With, ast.Try, ast.Match)):
                 for nm in _assigned_names(s):
